@@ -371,10 +371,16 @@ pub struct OutT {
     pub post: serde_json::Value,
 }
 
+fn yes() -> bool {
+    true
+}
+
 /// One transition emitted by TLC.
 #[derive(Deserialize, Clone, Debug)]
 pub struct EdgeT {
     pub scen: String,
+    #[serde(default = "yes")]
+    pub native: bool,
     pub from: StateT,
     pub env: EnvT,
     pub req: ReqT,
@@ -388,6 +394,7 @@ pub struct ObsT {
     pub seq: u64,
     pub reset: bool,
     pub chained: bool,
+    pub native: bool,
     pub probe: bool,
     pub pre: StateT,
     pub env: EnvT,
